@@ -31,7 +31,8 @@ def _prog(cfg):
 # private functions analysed as roots of their own because a property names them (C11: the short-haystack
 # fallback of the vector prefilters is reachable only through the meta searcher)
 import re as _re
-EXTRA_ROOTS = _re.compile(r'^memmem::searcher::Prefilter::(find_simple|sse2|avx2|neon|simd128|fallback(::<.*>)?)$')
+EXTRA_ROOTS = _re.compile(r'^memmem::searcher::Prefilter::(find_simple|sse2|avx2|neon|simd128|fallback(::<.*>)?)$'
+                          r'|^memmem::searcher::prefilter_kind_(sse2|avx2|neon|simd128|fallback)$')
 
 
 def public_roots(P):
@@ -86,7 +87,7 @@ def cut_set_for(P):
             return r
         _CUT[k] = frozenset(r for r in public_roots(P) if not P.instances[r].is_unsafe_fn
                             and P.instances[r].j.get('def_kind') in ('Fn', 'AssocFn') and substantial(P.instances[r])
-                            and P.instances[r].path not in NEVER_CUT)
+                            and P.instances[r].path not in NEVER_CUT and not EXTRA_ROOTS.match(P.instances[r].path))
     return _CUT[k]
 
 
@@ -118,6 +119,9 @@ def run_one(job):
                 mm.check_root_post(I, inst, r['results'], r.get('args', []))
                 mm.check_domain(I, inst, vname, r['results'])
                 mm.check_spec_post(I, inst, r['results'], r.get('args', []))
+                mm.check_iter_post(I, inst, r['results'], r.get('args', []))
+                if not vname.endswith('|out-of-domain'):
+                    mm.check_verified(I, inst, r['results'], r.get('args', []))
                 eqspec.check(I, inst, r['results'], r.get('args', []))
                 if post:
                     post(I, inst, r['results'])
